@@ -6,6 +6,7 @@
 -/
 import PdbVerif.Proofs.TableJoin
 import PdbVerif.Proofs.TableGet
+import PdbVerif.Proofs.TableWorldText
 
 set_option linter.unusedVariables false
 set_option linter.unusedSimpArgs false
@@ -97,6 +98,59 @@ theorem intersection_is_sliced_join (db : Db) (column : Py.Str) (mnames : List P
   simp only [hx', Bool.false_eq_true, if_false, hm]
   rw [hc]
   simp only [hnr, Bool.false_eq_true, if_false]
+  rfl
+
+/-- **the intersected database**: `intersect(match)` holds one table per structure, with the structure's name;
+    table `k` is the round trip (re-export, re-parse) of component `k` of the joined tuples, tuple by tuple in
+    the order of the join — so before the round trip row `i` of every table comes from the same joined tuple:
+    each is a row of its own structure and all carry the same matching key -/
+theorem intersect_tables (rt : Table → Table) (db db' : Db) (mnames : List Py.Str) (m : List StdCol)
+    (hm : mnames.mapM matchCol = some m) (h : Model.intersect rt db mnames = .ok db') :
+    let joined := joinRows m (db.tabs.map (·.rows))
+    db'.tabs.length = db.tabs.length ∧
+    ∀ k t, db.tabs[k]? = some t →
+      db'.tabs[k]? = some { name := t.name, rows := rt (joined.map (fun tup => tup.getD k default)) } ∧
+      (∀ tup ∈ joined, tup.getD k default ∈ t.rows) ∧
+      ∀ k' t', db.tabs[k']? = some t' → ∀ tup ∈ joined,
+        Spec.keyOf m (tup.getD k default) = Spec.keyOf m (tup.getD k' default) := by
+  intro joined
+  unfold Model.intersect at h
+  split_ifs at h with h1
+  rw [hm] at h
+  simp only at h
+  split_ifs at h with h2
+  injection h with h; subst h
+  refine ⟨by simp, ?_⟩
+  intro k t hk
+  have hk' : (db.tabs.map (·.rows))[k]? = some t.rows := by simp [hk]
+  refine ⟨?_, ?_, ?_⟩
+  · simp only [List.getElem?_map, List.getElem?_zipIdx, hk, Option.map_some, Nat.zero_add]
+    rw [component_eq_map m _ k t.rows hk']
+  · intro tup htup
+    obtain ⟨r, hr, hmem⟩ := component_mem m _ k t.rows hk' tup htup
+    simpa [List.getD_eq_getElem?_getD, hr] using hmem
+  · intro k2 t2 hk2 tup htup
+    have hk2' : (db.tabs.map (·.rows))[k2]? = some t2.rows := by simp [hk2]
+    obtain ⟨r, hr, _⟩ := component_mem m _ k t.rows hk' tup htup
+    obtain ⟨r2, hr2, _⟩ := component_mem m _ k2 t2.rows hk2' tup htup
+    have e1 : tup.getD k default = r := by simp [List.getD_eq_getElem?_getD, hr]
+    have e2 : tup.getD k2 default = r2 := by simp [List.getD_eq_getElem?_getD, hr2]
+    rw [e1, e2]
+    exact join_aligned m _ tup htup r (List.mem_of_getElem? hr) r2 (List.mem_of_getElem? hr2)
+
+/-- …and with the concrete round trip (parse ∘ export, C01 / C02) on structures whose rows fit the PDB columns,
+    table `k` of the intersected database is, row by row, the read-back of structure `k`'s aligned rows -/
+theorem intersect_tables_text (db db' : Db) (mnames : List Py.Str) (m : List StdCol)
+    (hm : mnames.mapM matchCol = some m) (h : Model.intersect Model.textRoundtrip db mnames = .ok db')
+    (hfits : ∀ t ∈ db.tabs, ∀ r ∈ t.rows, TableProofs.RowFits r) (k : Nat) (t : Tab) (hk : db.tabs[k]? = some t) :
+    db'.tabs[k]? = some (Tab.mk t.name
+      ((joinRows m (db.tabs.map (·.rows))).map (fun tup => TableProofs.rbRow (tup.getD k default)))) := by
+  obtain ⟨_, hall⟩ := intersect_tables Model.textRoundtrip db db' mnames m hm h
+  obtain ⟨h1, h2, _⟩ := hall k t hk
+  rw [h1, TableProofs.textRoundtrip_eq _ (by
+    intro r hr
+    obtain ⟨tup, htup, rfl⟩ := List.mem_map.1 hr
+    exact hfits t (List.mem_of_getElem? hk) _ (h2 tup htup)), List.map_map]
   rfl
 
 /-- per-structure queries return that structure's own atoms: `get` on table `tn` of a multi-structure database is
